@@ -102,3 +102,9 @@ CLAIMS["C10"] = (
     "the theorem is about the abstract heap: that the Python objects have no further mutable state (caches, aliasing beyond the modelled references, sktime clone/reset) is checked, not proved, by (i) recording every attribute write of public calls and comparing with what the model's operation writes and (ii) random histories over all detectors/scorers with shared cost objects, reused containers, in-place modified inputs, overlapping update chunks, each output compared with a fresh object's; interpretations: a scorer's last fit includes refits by holders; set_params invalidates the fit.",
     "3/C10",
 )
+CLAIMS["C11"] = (
+    "Lean 4 parametricity proofs about the container/label handling model + differential run over containers, dtypes, indexes, column labels and entry points",
+    "PARTIAL. Theorems values_relabel, sparse_relabel_invariant, container_invariant, dense_relabel in Skc/Props/C11.lean: in the model, detection is a function of the value matrix, which does not depend on index labels, column labels or the container, and dense outputs carry the input's own index with label-independent values.",
+    "pandas and NumPy are not modelled: this property is decided mainly by the differential run (all seven detectors and twelve scorer kinds x {ndarray 2-D/1-D, Series, DataFrame} x {int64, float64, incl. 1e8-scaled integers} x four index kinds x column labels incl. 'labels'/'values'/'ilocs' x {fit+predict, fit_predict, transform, transform_scores, fit+update+predict}); update() with a NumPy array is a listed known finding (known_findings.json).",
+    "3/C11",
+)
